@@ -249,7 +249,7 @@ def counterexample(ob, repo):
         cmd = ['cargo', 'kani', '-p', mode.split(':', 1)[1]]
     cmd += flags + list(ob.get('flags', [])) + ['--harness', ob['harness'], '--output-format', 'terse']
     try:
-        p = subprocess.run(cmd, cwd=cwd, env=env, capture_output=True, text=True, timeout=ob.get('timeout', 1800) + 600)
+        p = subprocess.run(cmd, cwd=cwd, env=env, capture_output=True, text=True, timeout=int(os.environ.get('VERIF_CEX_TIMEOUT', '420')))
     except subprocess.TimeoutExpired:
         return None
     out = p.stdout
